@@ -615,7 +615,11 @@ fn layouts_all(n: usize) -> Vec<Vec<bool>> {
 // =================================================================================================
 // family 2b: RESOLVE — the constructs on a tree with files inside and sentinels outside
 
-const CONSTRUCTS: [&str; 4] = ["include", "incbin", "incbinstr", "inchexstr"];
+const CONSTRUCTS: [&str; 6] = ["include", "incbin", "incbinstr", "inchexstr", "incbin as a rule argument", "incbin as a sub-rule operand"];
+/// rules for the last two constructs; they stand at the top of the ROOT file, so that for the including position
+/// "sub/inc.asm included from main.asm" the rule is defined in another directory than the line that uses it: the path
+/// is still relative to the file that contains the call
+const ARG_RULES: &str = "#subruledef opnd\n{\n    {v} => v\n}\n#ruledef\n{\n    emitv {v} => v\n    ldo {o: opnd} => o\n}\n";
 const INCLUDERS: [&str; 4] = ["root main.asm", "root sub/main.asm", "sub/inc.asm included from main.asm", "root ./main.asm"];
 
 /// files inside the tree: (path, payload byte)
@@ -644,7 +648,7 @@ fn is_sentinel(b: u8) -> bool {
 fn payload(construct: usize, b: u8) -> Vec<u8> {
     match CONSTRUCTS[construct] {
         "include" => format!("#d8 0x{:02x}\n", b).into_bytes(),
-        "incbin" => vec![b],
+        "incbin" | "incbin as a rule argument" | "incbin as a sub-rule operand" => vec![b],
         "incbinstr" => format!("{:08b}", b).into_bytes(),
         "inchexstr" => format!("{:02x}", b).into_bytes(),
         _ => unreachable!(),
@@ -654,6 +658,8 @@ fn payload(construct: usize, b: u8) -> Vec<u8> {
 fn construct_text(construct: usize, rel: &str) -> String {
     let inner = match CONSTRUCTS[construct] {
         "include" => format!("#include {}\n", lit(rel)),
+        "incbin as a rule argument" => format!("emitv incbin({})\n", lit(rel)),
+        "incbin as a sub-rule operand" => format!("ldo incbin({})\n", lit(rel)),
         f => format!("#d {}({})\n", f, lit(rel)),
     };
     format!("#d8 0xa5\n{}#d8 0x5a\n", inner)
@@ -692,7 +698,17 @@ fn judge_resolve(c: &ResolveCase, real: Option<(&RealEnv, &Path, u64)>, l: &mut 
         None => String::new(),
     };
     let text = construct_text(c.construct, &c.rel);
-    let (root, holder, inc_files) = includer_files(c.includer, &tag, &text);
+    let (root, holder, mut inc_files) = includer_files(c.includer, &tag, &text);
+    if c.construct >= 4 {
+        // the rules go to the top of the root file
+        for f in inc_files.iter_mut() {
+            if f.0 == root {
+                let mut t = ARG_RULES.as_bytes().to_vec();
+                t.extend(f.1.iter());
+                f.1 = t;
+            }
+        }
+    }
     let want = model::navigate(&holder, &c.rel);
     let literal_std = c.rel.starts_with(model::STD_PREFIX);
     l.eval();
@@ -1132,6 +1148,38 @@ pub fn run(ctx: &Ctx) -> Report {
     }
     breakdown.insert("resolve_mock", json!({"constructs": CONSTRUCTS, "including_positions": INCLUDERS, "path_strings": rrels.len(), "cases": rcases.len()}));
 
+    // ---- 2c. several root files on one command line: `#once` holds across all of them, a file without it is spliced
+    //      every time; expected bytes written down by hand
+    {
+        let f = |n: &str, t: &str| (n.to_string(), t.as_bytes().to_vec());
+        let cases: Vec<(&str, Vec<(String, Vec<u8>)>, Vec<&str>, Vec<u8>)> = vec![
+            ("once file reached from two roots", vec![f("r1.asm", "#include \"o.asm\"\n#d8 1\n"), f("r2.asm", "#include \"o.asm\"\n#d8 2\n"), f("o.asm", "#once\n#d8 0x77\n")], vec!["r1.asm", "r2.asm"], vec![0x77, 1, 2]),
+            ("file without once reached from two roots", vec![f("r1.asm", "#include \"o.asm\"\n#d8 1\n"), f("r2.asm", "#include \"o.asm\"\n#d8 2\n"), f("o.asm", "#d8 0x77\n")], vec!["r1.asm", "r2.asm"], vec![0x77, 1, 0x77, 2]),
+            ("once file is itself the first root", vec![f("r2.asm", "#include \"o.asm\"\n#d8 2\n"), f("o.asm", "#once\n#d8 0x77\n")], vec!["o.asm", "r2.asm"], vec![0x77, 2]),
+            ("once file under two spellings from two roots", vec![f("r1.asm", "#include \"sub/o.asm\"\n#d8 1\n"), f("r2.asm", "#include \"./sub/../sub/o.asm\"\n#d8 2\n"), f("sub/o.asm", "#once\n#d8 0x77\n")], vec!["r1.asm", "r2.asm"], vec![0x77, 1, 2]),
+            ("three roots, once file in the second and third", vec![f("r1.asm", "#d8 1\n"), f("r2.asm", "#include \"o.asm\"\n#d8 2\n"), f("r3.asm", "#include \"o.asm\"\n#d8 3\n"), f("o.asm", "#once\n#d8 0x77\n")], vec!["r1.asm", "r2.asm", "r3.asm"], vec![1, 0x77, 2, 3]),
+        ];
+        let mut loc = Local::new();
+        for (name, files, roots, want) in &cases {
+            loc.eval();
+            loc.nontrivial(name);
+            loc.class("graph-several-roots");
+            let obs = run::assemble_files(files, roots, &run::Opts::default());
+            let got = if obs.success() { bits_bytes(&obs.bits) } else { None };
+            loc.traces_validated += 1;
+            if obs.panicked.is_some() || got.as_ref() != Some(want) {
+                loc.violation(Violation {
+                    property: ID,
+                    key: "graph:several-roots-once".into(),
+                    what: format!("{}: roots {:?} expected {:02x?}, observed {}", name, roots, want, obs.summary()),
+                    case: json!({"kind": "several-roots", "files": files.iter().map(|(n, b)| json!([n, String::from_utf8_lossy(b)])).collect::<Vec<_>>(), "roots": roots, "expected": want, "observed": obs.summary()}),
+                });
+            }
+        }
+        stash(&mut parts, 6, loc);
+        breakdown.insert("several_roots", json!({"cases": cases.len()}));
+    }
+
     // ---- 3. RANGES
     let fcases = fn_cases();
     stash(&mut parts, 5, par_cases(&fcases, judge_fn));
@@ -1260,6 +1308,17 @@ pub fn replay(ctx: &Ctx, case: &serde_json::Value) -> i32 {
         let before = l.violations.len();
         match case["kind"].as_str().unwrap_or("") {
             "path" => judge_path(case["current"].as_str().unwrap_or(""), case["relative"].as_str().unwrap_or(""), l),
+            "several-roots" => {
+                let files: Vec<(String, Vec<u8>)> = case["files"].as_array().cloned().unwrap_or_default().iter().map(|f| (f[0].as_str().unwrap_or("").to_string(), f[1].as_str().unwrap_or("").as_bytes().to_vec())).collect();
+                let roots: Vec<String> = case["roots"].as_array().cloned().unwrap_or_default().iter().map(|r| r.as_str().unwrap_or("").to_string()).collect();
+                let roots_ref: Vec<&str> = roots.iter().map(|s| s.as_str()).collect();
+                let want: Vec<u8> = case["expected"].as_array().cloned().unwrap_or_default().iter().map(|b| b.as_u64().unwrap_or(0) as u8).collect();
+                let obs = run::assemble_files(&files, &roots_ref, &run::Opts::default());
+                println!("roots {:?} -> {} (expected bytes {:02x?})", roots, obs.summary(), want);
+                if !(obs.success() && bits_bytes(&obs.bits).as_ref() == Some(&want)) {
+                    l.violation(Violation { property: ID, key: "replay".into(), what: "still differs".into(), case: case.clone() });
+                }
+            }
             "graph" => {
                 let Some((c, real)) = graph_from_json(case) else {
                     eprintln!("bad graph case");
